@@ -422,6 +422,17 @@ func runSeqHistory(eng *kb.Engine, engName string, b *seqBehaviour, rnd *rand.Ra
 			opt.afterOp(env, i, o, rd)
 		}
 		last := i == len(b.Ops)-1
+		if last && engName == "tikv-regions" {
+			// real TiKV regions with borders on index records and in the middle of the keys' versions
+			for k := 1; k <= b.NKeys; k++ {
+				for r := b.Base + 1; r <= cur; r += 2 {
+					eng.SplitAt(env.InternalKey(k, r))
+				}
+				if k%2 == 0 {
+					eng.SplitAt(env.InternalKey(k, 0))
+				}
+			}
+		}
 		if last {
 			rd.sweep(rnd, b.NKeys, b.Base, cur, opt.finalFrac, opt.streams)
 		} else if frac > 0 {
